@@ -64,11 +64,11 @@ def load(mir_path, repo, nregions):
     gvf = field_order("GenerationValue")
     if gvf != ["generation", "value"]:
         raise A.Unsupported("GenerationValue fields changed: %r" % (gvf,))
-    m = re.search(r"next_generation:\s*AtomicU64::new\((\d+)\)", src)
+    m = re.search(r"next_generation:\s*AtomicU64::(?:new\((\d+)\)|(default)\(\))", src)
     m2 = re.search(r"ArcSwap::from_pointee\(GenerationValue \{\s*generation:\s*(\d+)", src)
     if not m or not m2:
         raise A.Unsupported("initial generation constants not found in GlobalState::new")
-    init = dict(gen=int(m.group(1)), latest=int(m2.group(1)))
+    init = dict(gen=0 if m.group(2) else int(m.group(1)), latest=int(m2.group(1)))
 
     def find(name):
         c = [f for k, f in funcs.items() if re.search(r"^region_cached::<impl at [^>]*region_cached\.rs:\d+:\d+: \d+:\d+>::" + re.escape(name) + "$", k)]
